@@ -918,6 +918,9 @@ func descD(v ssa.Value, depth int) string {
 		if isInduction(x) {
 			return inductionName(x.Block())
 		}
+		if c, ok := countedFrom(x); ok {
+			return fmt.Sprintf("%s(from %d)", inductionName(x.Block()), c) // a walk that skips the first elements
+		}
 		// leaves through phis (and through append, which extends its first argument): stable under nesting
 		leaves := map[string]bool{}
 		seenV := map[ssa.Value]bool{}
@@ -2106,4 +2109,25 @@ func preciseLeaves(v ssa.Value, depth int, seen map[ssa.Value]bool, out map[stri
 		return
 	}
 	out[desc(v)] = true
+}
+
+// countedFrom: phi counts up by 1 from a constant other than the first index.
+func countedFrom(phi *ssa.Phi) (int64, bool) {
+	if len(phi.Edges) != 2 {
+		return 0, false
+	}
+	var start int64
+	haveStart, haveStep := false, false
+	for _, e := range phi.Edges {
+		if c, ok := constInt(e); ok {
+			start, haveStart = c, true
+			continue
+		}
+		if b, ok := e.(*ssa.BinOp); ok && b.Op == token.ADD && b.X == ssa.Value(phi) {
+			if c, ok := constInt(b.Y); ok && c == 1 {
+				haveStep = true
+			}
+		}
+	}
+	return start, haveStart && haveStep
 }
